@@ -89,9 +89,15 @@ CHECKS = {
             'signal-order monitor on generated projects',
             'Every digraph of the scope is fed to the real ordering code; '
             'acyclic graphs must come back as a dependency-respecting '
-            'permutation, cyclic ones must raise.',
+            'permutation, cyclic ones must raise. Generated projects with '
+            'evolution apps, apps managed by migration chains, hand-overs '
+            'and AFTER_/BEFORE_ EVOLUTIONS/MIGRATIONS requirements are '
+            'upgraded by the real Evolver and the observed order of '
+            'migrations (signals) and evolutions (the statement that '
+            'introduces their column) is checked against every requirement.',
             'The ordering core is DependencyGraph.get_ordered(); exhaustive '
-            'only for the stated node counts.', '3/C09'),
+            'only for the stated node counts; the project pools are random.',
+            '3/C09'),
     'C04': ('exploration',
             'differential monitoring of real upgrade paths on generated '
             'on-disk projects (fresh / direct / stepwise, three drivers), '
